@@ -1164,6 +1164,18 @@ def item(t, i):
     return ('item', t, i)
 
 
+def _evaluates_call(t):
+    """evaluating the expression t performs a call (the element of an iteration, or a variable, does not - whatever defined it)"""
+    if not isinstance(t, tuple) or not t or not isinstance(t[0], str):
+        return False
+    if t[0] in ('iter', 'idx', 'v', 'c', 'g'):
+        return False
+    if t[0] in ('call', 'comp'):
+        return True
+    return any(_evaluates_call(x) for x in t[1:] if isinstance(x, tuple)) or \
+        any(_evaluates_call(y) for x in t[1:] if isinstance(x, tuple) and x and isinstance(x[0], tuple) for y in x)
+
+
 def _arrayish(t):
     """an index that is certainly not a scalar: a selection by a mask or a slice, a comparison, a display, an array-valued call.
     a[rows, j] pairs the rows with j; a[rows][j] takes the j-th of the selected rows - not the same thing"""
@@ -1242,8 +1254,9 @@ def subscript(base, idx):
                 not (lo_[0] == 'un'):
             return subscript(base[1], lo_ if idx[1] == 0 else fold_bin('+', lo_, idx))
     # (A, B)[test] with a comparison as the index is `B if test else A`
-    if base[0] in ('tuple', 'list') and len(base) == 3 and idx[0] == 'cmp':
-        return ('ifexp', idx, base[2], base[1])
+    if base[0] in ('tuple', 'list') and len(base) == 3 and idx[0] == 'cmp' and \
+            not any(_evaluates_call(b_) for b_ in base[1:]):
+        return ('ifexp', idx, base[2], base[1])      # both items are evaluated: only when evaluating them does nothing (no call)
     # a[i, :] with scalar i is the row a[i]
     if idx[0] == 'tuple' and len(idx) == 3 and idx[1][0] != 'slice' and idx[2] == ('slice', ('c', None), ('c', None), ('c', None)):
         return subscript(base, idx[1])
